@@ -269,11 +269,19 @@ def leg_py_fstrings(ns, res, spec):
         ("update a1 = f'{NU}/{NF}' where a2 != 'b'", None, None, None),
         ("select distinct f'{a1}' where a2 != f'{a1}'", None, None, lambda A: [[v] for v in dict.fromkeys(r[0] for r in A if r[1] != r[0])]),
         ("select top 2 f'{NF}{NR}'", None, None, lambda A: [['%d%d' % (len(r), i + 1)] for i, r in enumerate(A)][:2]),
+        # multi-line queries whose continuation lines start with an operator of the host language (// is floor division here, not a comment; % a remainder)
+        ("select a1, NR,\n    len(a2) + 7\n    // 2", None, None, lambda A: [[r[0], i + 1, len(r[1]) + 7 // 2] for i, r in enumerate(A)]),
+        ("select NR, a1\nwhere len(a2) + 2\n  // 2 == 1", None, None, lambda A: [[i + 1, r[0]] for i, r in enumerate(A) if len(r[1]) + 2 // 2 == 1]),
+        ("select a1,\n  NR + 5\n  % 3\n  , a2", None, None, lambda A: [[r[0], i + 1 + 5 % 3, r[1]] for i, r in enumerate(A)]),
+        ("select a2 order by\n len(a1)\n // 2,\n a2", None, None, lambda A: [[r[1]] for r in sorted(A, key=lambda r: (len(r[0]) // 2, r[1]))]),
+        ("select a1 # the key\n# a whole comment line\n  , a3", None, None, None),
     ]
     for n in range(spec['n']):
         A = [[rng.choice(['a', 'b', 'ab', '', '10']) for _ in range(3)] for _ in range(rng.randrange(1, 7))]
         q, cols, Bt, expf = T[n % len(T)]
-        if expf is None:
+        if expf is None and q.startswith('select a1 #'):
+            exp = None      # a trailing comment is not supported syntax in every version: only "fails or projects a1, a3" is demanded
+        elif expf is None:
             nu = 0
             exp = []
             for r in A:
@@ -292,6 +300,10 @@ def leg_py_fstrings(ns, res, spec):
         res.evaluations += 1
         res.count('py_fstring_runs')
         res.nontrivial('py-fstring', q, repr(A))
+        if exp is None:
+            if err is None and out != [[r[0], r[2]] for r in A]:
+                res.violation('py:comment-line-handling', '[py] %r over %r -> %r' % (q, A, out), {'leg': 'py-fstrings', 'query_text': q, 'A': A, 'engine': 'py'})
+            continue
         if err is not None or out != exp:
             res.violation('py:fstring-variable-not-bound', '[py] %s over %r -> %r (error %r) ; expected %r' % (q, A, out, err, exp), {'leg': 'py-fstrings', 'query_text': q, 'A': A, 'engine': 'py'})
     res.sample({'leg': 'py-fstrings', 'queries': [t[0] for t in T[:4]]})
